@@ -240,6 +240,15 @@ def mkCtx (st : OState) (v : OpView) : Ctx :=
     writes := if op == "raw" then v.io.rawWrites else logWrites v.io.log,
     fh, dh, accdate := (Util.kv v.cfgArgs "accdate") == some "1", unicode := (Util.kv v.cfgArgs "unicode") != some "0", upper := v.upper }
 
+/-- the tree specification names objects by their displayed names: an image on which two siblings display alike (OEM
+    bytes >= 0x80 all display as U+FFFD) or a name contains U+FFFD cannot be followed by it - such images are outside
+    the domain of the C01 tree oracle (the slot-tree correspondence, keyed by slot positions, still covers them) -/
+def ambiguousNames (upper : Char → List Char) (root : Node) : Bool :=
+  let paths := (flatMeta root).toList.map fun (p, _, _) => p
+  paths.any (fun p => p.toList.any (· == replChar)) ||
+  (let folded := paths.map (foldName upper)
+   folded.length != (folded.foldl (fun (s : Std.HashSet String) q => s.insert q) {}).size)
+
 /-! ## State update -/
 
 def parseNums (l : List String) : Option (List Nat) := l.mapM String.toNat?
@@ -290,7 +299,9 @@ def update (st : OState) (v : OpView) (c : Ctx) : OState :=
     { st with geom := gAfter, mounted := true, dirs := ({} : Std.HashMap Nat (List String)).insert 0 [], files := {},
               mountStatus := status, mountFsInfoUnknown := unknown, roWindow := true, expects := [],
               tree := if v.prop != "C01" then none else
-                match decodeTree v.after with | .ok r => some (TNode.ofNode r) | .error _ => none }
+                match decodeTree v.after with
+                | .ok r => if ambiguousNames c.upper r then none else some (TNode.ofNode r)
+                | .error _ => none }
   | "unmount", _ | "dropfs", _ | "forget", _ =>
     { st with mounted := false, dirs := {}, files := {}, tree := none, roWindow := false }
   | "root", [d] =>
@@ -502,6 +513,7 @@ def oC01 (st st' : OState) (v : OpView) (c : Ctx) : Option TNode × List String 
     match decodeTree (applyOverlay v.after (v.overlay.getD [])) with
     | .error e => (none, m1 ++ [s!"C01 tree-diff {tag} the image no longer decodes: {e}"])
     | .ok root =>
+      if ambiguousNames c.upper root then (none, []) else
       let abs := TNode.ofNode root
       let m2 := match shapeDiff t1 root with
         | some d => [s!"C01 tree-diff {tag} {d}"]
